@@ -36,7 +36,7 @@ def main():
         return replay(mod, a.replay)
     chk = Check(prop, tier, seed, level=getattr(mod, "LEVEL", "proof"))
     gen_audit(prop)
-    chk.lean = lean_check(prop)
+    chk.lean = lean_check(prop, tier)
     try:
         build_harness()
     except BuildError as e:
